@@ -156,7 +156,7 @@ func parent(id, tier string, only int64) int {
 			cmd.Env = append(os.Environ(),
 				"VERIF_SEED="+strconv.FormatInt(sd, 10),
 				"VERIF_WORK="+work,
-				"GORACE=halt_on_error=0 log_path="+filepath.Join(work, fmt.Sprintf("race-%s-%d", j.build, j.i)),
+				"GORACE=halt_on_error=0 exitcode=0 log_path="+filepath.Join(work, fmt.Sprintf("race-%s-%d", j.build, j.i)),
 				"GOTRACEBACK=all",
 			)
 			if err := cmd.Start(); err != nil {
